@@ -6,6 +6,20 @@ T_ref {298.15, 298, 300} x a zero Cp value present/absent, built directly and by
 loading a file (numpy scalars); x 19 unit choices.  Plus every group of every
 shipped library x the 19 unit choices.  The text is loaded back both as a
 tagged object and embedded in a library file.
+
+Third wave (domains in mc/domains/w3_c18.py):
+* magnitude ladder: every value sign x {1.234567, 9.87654321} x 10**e, e in
+  -9..9 (thorough: -12..12), placed in H_ref, S_ref and two Cp points (once
+  negated), built directly and by loading a file, x 25 unit choices (the 19
+  plus mK and MK temperatures with the three matching enthalpy/entropy pairs);
+* histories on one object: every sequence of 2 (thorough: 3) of the public
+  mutators {del_ND_H_ref, del_ND_S_ref, del_ND_Cp(400), del_ND_Cp(),
+  set_range((250,1200)), set_range(None), update(other, overwrite)} from 3
+  starting correlations, the object written and read back before the first and
+  after every step, in 3 unit choices; the expectation is the object's fields
+  read just before formatting, and formatting must leave them untouched;
+* every ordered pair of the 25 unit choices written one after the other from
+  the same object (the second text is judged).
 """
 import itertools
 import os
@@ -14,6 +28,7 @@ import tempfile
 from ..runner import Result
 from ..domains import estimates as E
 from ..domains import libs
+from ..domains import w3_c18 as W
 
 TWO_HASH_SEEDS = ('thorough',)   # tiers in which the space is walked under a second PYTHONHASHSEED
 LEVEL = 'exploration'
@@ -29,18 +44,33 @@ GROUP = 'C(C)(H)3'
 BOUND = {t: 'table sizes %s (with and without a zero entry) x 7 H x 3 S x 2 '
             'ranges x 3 T_ref x {built directly, loaded from a file, dict in descending order, point merged in later} x 19 unit '
             'choices x {tagged load, embedded in a library file}; every group of '
-            '9 shipped libraries x 19 unit choices'
-            % ([0, 1, 2, 3] if t == 'quick' else [0, 1, 2, 3, 7, 15])
+            '9 shipped libraries x 19 unit choices; magnitude ladder +-{1.234567, '
+            '9.87654321} x 10**e, e in %s, in H, S and two Cp points x {built '
+            'directly, loaded} x 25 unit choices (19 + mK/MK x 3 matching '
+            'pairs); all sequences of %d of the 7 public mutators x 3 starting '
+            'correlations x 3 unit choices, written and read back before the '
+            'first and after every step; all 625 ordered pairs of unit choices '
+            'written from one object'
+            % ([0, 1, 2, 3] if t == 'quick' else [0, 1, 2, 3, 7, 15],
+               '-9..9' if t == 'quick' else '-12..12', W.hist_len(t))
          for t in ('quick', 'thorough')}
 RULE = ('each correlation is formatted with yaml_format(units), the text '
         'loaded back, and the two objects compared field by field as the '
         'statement says (six significant digits for temperatures; exact / six '
         'digits for values; presence preserved).  Non-trivial = the correlation '
         'has a zero or missing part, a value needing more than six digits or '
-        'an exponent, or a dimensional unit choice')
+        'an exponent, or a dimensional unit choice.  Magnitude-ladder cases and '
+        'every step of a history count as non-trivial; in a history the '
+        'expectation of a step is a plain copy of the object\'s fields taken '
+        'just before it is formatted (so a text remembered from an earlier '
+        'state, or a formatter that edits the object, is seen), and a mutator '
+        'that raises ends that history without a verdict')
 ASSUMPTIONS = ['"six significant digits" is judged with a relative tolerance '
                'of 1e-5 (two roundings can compound in the dimensional form)',
-               'T_ref values are exactly representable in six digits']
+               'T_ref values are exactly representable in six digits',
+               'histories use only the documented mutator methods (no direct '
+               'attribute assignment); a mutator raising (e.g. update() after '
+               'del_ND_Cp() left the table as None) is outside this property']
 MANIFEST = dict(
     technique='exhaustive enumeration of correlations x unit choices, '
               'round trip through the formatter and both loaders',
@@ -49,11 +79,17 @@ MANIFEST = dict(
          'directly and by loading, and every group of every shipped library, is '
          'written with each of 19 unit choices and read back through the tagged '
          'loader and through a library file; reference temperature, range, '
-         'table and reference values must survive as the statement specifies.',
+         'table and reference values must survive as the statement specifies.  '
+         'The same is demanded of values of every decade 1e-9..1e9 (thorough '
+         '1e-12..1e12) in every value slot under 25 unit choices incl. mK and '
+         'MK, of one object written again after each of its mutators was '
+         'applied (all sequences up to the bound), and of one object written '
+         'in two unit choices in a row.',
     note='Values come from a small alphabet chosen to hit zero, absence, '
          'exponent notation and numpy scalar types.',
     ref='5/C18')
 SCHEME = E.SCHEME
+assert W.BASE_UNITS == UNITS
 
 
 def tables(tier):
@@ -180,12 +216,18 @@ def compare(src, back, dimensional):
     return probs
 
 
-def roundtrip(R, src, units, wit, label, nontrivial):
+def roundtrip(R, src, units, wit, label, nontrivial, head='roundtrip', snap=False):
+    """Write src with `units`, read the text back both ways, compare.
+
+    With snap=True (histories) the expectation is a plain copy of the fields
+    taken BEFORE formatting, and formatting must leave the fields as they were.
+    """
     from pgradd import yaml_io
     dimensional = bool(units)
     R.evals += 1
     if nontrivial or dimensional:
         R.nontrivial += 1
+    before = W.Snap(src) if snap else None
     try:
         text = src.yaml_format(units)
     except Exception as e:      # noqa
@@ -193,6 +235,15 @@ def roundtrip(R, src, units, wit, label, nontrivial):
         R.violation('format-raises:%s' % type(e).__name__,
                     '%s: yaml_format(%r) raised %s: %s' % (label, units, type(e).__name__, e), wit)
         return
+    if snap:
+        after = W.Snap(src)
+        if after.fields() != before.fields():
+            R.outcomes['format-mutates'] += 1
+            R.violation('format-mutates',
+                        '%s: yaml_format(%r) changed the object it formats: %r -> %r'
+                        % (label, units, before.fields(), after.fields()), wit)
+            return
+        src = before
     for how in ('tagged', 'library'):
         try:
             if how == 'tagged':
@@ -205,7 +256,7 @@ def roundtrip(R, src, units, wit, label, nontrivial):
         R.outcomes['%s:%s' % (how, 'same' if not probs else 'differs')] += 1
         if probs:
             cls = probs[0].split(':')[0].split(' (')[0].split('(')[0]
-            R.violation('roundtrip:%s:%s' % (cls, 'dimensional' if dimensional else 'nd'),
+            R.violation('%s:%s:%s' % (head, cls, 'dimensional' if dimensional else 'nd'),
                         '%s written with units %r and read back (%s): %s\n--- text ---\n%s'
                         % (label, units, how, probs[0], text), dict(wit, how=how))
             break
@@ -259,6 +310,81 @@ def run_lib(R, name, i, n, only=None):
                       '%s[%s]' % (name, g), False)
 
 
+def build_case(c, built):
+    if built == 'loaded':      # numpy scalars, every number written positionally
+        return load_lib_text(lib_text(W.dimensional_text(c)))
+    return build_direct(c, 'direct')
+
+
+def mag_one(R, v, built, uis):
+    c = W.ladder_case(v)
+    label = 'magnitude ladder value %r in H, S, Cp(300), -Cp(500) (%s)' % (v, built)
+    try:
+        src = build_case(c, built)
+    except Exception as e:      # noqa
+        R.evals += 1
+        R.outcomes['source-unbuildable:' + type(e).__name__] += 1
+        return
+    for ui in uis:
+        roundtrip(R, src, W.EXT_UNITS[ui], dict(kind='mag', value=v, built=built, unit=ui),
+                  label, True)
+
+
+def run_mag(R, i, n, tier):
+    for k, v in enumerate(W.ladder(tier)):
+        if k % n != i:
+            continue
+        for built in ('direct', 'loaded'):
+            mag_one(R, v, built, range(len(W.EXT_UNITS)))
+
+
+def history_one(R, si, seq, ui):
+    """One object, one history: written and read back before the first and
+    after every operation.  The witness carries the whole history."""
+    name, c, built = W.STARTS[si]
+    units = W.BASE_UNITS[ui]
+    src = build_case(c, built)
+    done = []
+    for j in range(len(seq) + 1):
+        if j:
+            op = seq[j - 1]
+            try:
+                W.apply_op(src, op)
+            except Exception as e:      # noqa
+                R.outcomes['op-raises:%s:%s' % (op, type(e).__name__)] += 1
+                return
+            done.append(op)
+        roundtrip(R, src, units,
+                  dict(kind='hist', start=si, ops=list(seq), unit=ui, step=j),
+                  'start %s (%s), written after each of %s; now after %s'
+                  % (name, built, list(seq), done or 'nothing'),
+                  True, head='history', snap=True)
+
+
+def run_hist(R, i, n, tier):
+    for k, (si, seq, ui) in enumerate(W.histories(tier)):
+        if k % n == i:
+            history_one(R, si, seq, ui)
+
+
+def pair_one(R, a, b):
+    name, c, built = W.STARTS[0]
+    src = build_case(c, built)
+    try:
+        src.yaml_format(W.EXT_UNITS[a])     # judged on its own in the other families
+    except Exception as e:      # noqa
+        R.outcomes['first-format-raises:' + type(e).__name__] += 1
+    roundtrip(R, src, W.EXT_UNITS[b], dict(kind='pair', first=a, unit=b),
+              'start %s written with units %r and then' % (name, W.EXT_UNITS[a]),
+              True, head='history', snap=True)
+
+
+def run_pair(R, i, n):
+    for k, (a, b) in enumerate(W.unit_pairs()):
+        if k % n == i:
+            pair_one(R, a, b)
+
+
 def shards(tier, seed):
     out = []
     n = 16 if tier == 'quick' else 48
@@ -267,6 +393,14 @@ def shards(tier, seed):
     for name in libs.LIBS:
         for i in range(4):
             out.append(('lib', name, i, 4))
+    n = 8 if tier == 'quick' else 12
+    for i in range(n):
+        out.append(('mag', i, n))
+    n = 4 if tier == 'quick' else 24
+    for i in range(n):
+        out.append(('hist', i, n))
+    for i in range(2):
+        out.append(('pair', i, 2))
     return out
 
 
@@ -274,6 +408,12 @@ def run_shard(shard, tier):
     R = Result()
     if shard[0] == 'fam':
         run_family(R, shard[1], shard[2], tier)
+    elif shard[0] == 'mag':
+        run_mag(R, shard[1], shard[2], tier)
+    elif shard[0] == 'hist':
+        run_hist(R, shard[1], shard[2], tier)
+    elif shard[0] == 'pair':
+        run_pair(R, shard[1], shard[2])
     else:
         run_lib(R, shard[1], shard[2], shard[3])
     return R
@@ -285,6 +425,12 @@ def replay(w):
         run_family(R, 0, 1, 'thorough', only=(w['idx'], w['built'], w['unit']))
         if not R.evals:
             run_family(R, 0, 1, 'quick', only=(w['idx'], w['built'], w['unit']))
+    elif w['kind'] == 'mag':
+        mag_one(R, float(w['value']), w['built'], [w['unit']])
+    elif w['kind'] == 'hist':
+        history_one(R, w['start'], tuple(w['ops']), w['unit'])
+    elif w['kind'] == 'pair':
+        pair_one(R, w['first'], w['unit'])
     else:
         run_lib(R, w['lib'], 0, 1, only=(w['group'], w['unit']))
     return dict(violates=bool(R.violations),
